@@ -684,3 +684,9 @@ package base
 //@   ensures [C18] nothing: len(cs.Assignments) + len(cs.FunctionCalls) + len(cs.MethodCalls) + len(cs.ThreeLevelCalls) == 0 ==> result.1 == nil && !anyfail
 //@   modifies frame evalframe
 //@   nopanic
+
+//@ func NewKnowledgeContext
+//@   props C08
+//@   ensures fresh(result) && result != nil && fresh(result.RuleEntities) && result.RuleEntities != nil && emptymap(result.RuleEntities) && len(result.RuleEntities) == 0 && len(result.SortRules) == 0 && fresh(result.SortRulesIndexMap) && result.SortRulesIndexMap != nil && emptymap(result.SortRulesIndexMap) && (isnil(result.SortRules) || fresh(arr(result.SortRules))) && lo(result.SortRules) == 0
+//@   modifies nothing
+//@   nopanic
